@@ -550,6 +550,9 @@ class WebSocket:
             If None, it will wait forever until receive a close frame.
         """
         if not self.connected:
+            # the closing handshake is already over (or was never possible):
+            # nothing to send, but do not keep the transport
+            self.shutdown()
             return
         if status < 0 or status >= ABNF.LENGTH_16:
             raise ValueError("code is invalid range")
